@@ -315,6 +315,22 @@ Proof.
   unfold textok. rewrite H1, H2, H3. reflexivity.
 Qed.
 
+Lemma sl_plain_name_char : forall c, plain_char c = true -> name_char c = true.
+Proof. intros c. destruct c as [[] [] [] [] [] [] [] []]; vm_compute; intro H; (reflexivity || discriminate H). Qed.
+
+Lemma sl_plain_name_chars : forall s, plain s = true -> name_chars s = true.
+Proof.
+  induction s as [|c r IH]; intro H; [reflexivity|]. cbn [plain] in H. apply andb_true_iff in H. destruct H as [H1 H2].
+  cbn [name_chars]. rewrite (sl_plain_name_char c H1), (IH H2). reflexivity.
+Qed.
+
+Lemma sl_txt_nameok : forall s, txt s = true -> nameok s = true.
+Proof.
+  intros s H. unfold txt in H. apply andb_true_iff in H. destruct H as [H _]. apply andb_true_iff in H. destruct H as [H _].
+  apply andb_true_iff in H. destruct H as [H H3]. apply andb_true_iff in H. destruct H as [H1 _].
+  unfold nameok. rewrite (sl_plain_name_chars s H1), H3. reflexivity.
+Qed.
+
 Lemma sl_headok : forall id nm ty, ident id = true ->
   match nm with Some s => txt s && no_char ":" s | None => true end = true -> ident ty = true -> headok id nm ty = true.
 Proof.
@@ -323,7 +339,7 @@ Proof.
   apply andb_true_iff in Ht. destruct Ht as [Ht T3]. apply andb_true_iff in Ht. destruct Ht as [T1 T2].
   unfold headok. rewrite (sl_txt_textok _ I1), I2, I3, (sl_txt_textok _ T1), T2, T3.
   destruct nm as [s|]; [|reflexivity]. apply andb_true_iff in Hn. destruct Hn as [N1 N2].
-  rewrite (sl_txt_textok _ N1), N2. reflexivity.
+  rewrite (sl_txt_nameok _ N1). reflexivity.
 Qed.
 
 Lemma sl_top_plain : forall id nm ty its tl, ident id = true ->
